@@ -4,6 +4,7 @@ import (
 	"encoding/json"
 	"fmt"
 	"math/big"
+	"strings"
 
 	"github.com/cockroachdb/apd/v3"
 
@@ -198,7 +199,12 @@ func c11Run(e *core.Env) {
 		if msg != "" || e.WantSample() {
 			a := mkCase(op, x, nil, cc)
 			if msg != "" {
-				e.Fail(cls, "c11", a, a.String()+": "+msg)
+				// the violation class is the input class without the family label appended for the histogram
+				fc := cls
+				for _, suf := range []string{"/near-square-64bit", "/perfect-square", "/trailing-zeros"} {
+					fc = strings.TrimSuffix(fc, suf)
+				}
+				e.Fail(fc, "c11", a, a.String()+": "+msg)
 			} else {
 				e.Sample(a.String() + " => " + cls)
 			}
@@ -325,6 +331,34 @@ func c11Run(e *core.Env) {
 					cc := MkCtx(p, -6143, 6144, md, 0)
 					cls, triv, msg := c11Sqrt(x, cc)
 					report("Sqrt", x, cc, cls+"/perfect-square", triv, msg)
+				}
+			}
+		}
+	}
+	// (c'') coefficients of 17-20 digits (between 2^53 and 2^64) that are perfect squares or one/few units away
+	// from one: where a float64 shortcut cannot tell a square from its neighbours
+	for bi, base := range []string{"100000000", "100000001", "123456789", "300000000", "316227766", "999999999", "1000000000", "2147483648", "3037000499", "4294967295", "4294967296"} {
+		s0 := bigOf(base)
+		for k := int64(0); k < 6; k++ {
+			idx++
+			if !e.Mine(idx) {
+				continue
+			}
+			sr := new(big.Int).Add(s0, big.NewInt(k*7))
+			sq := new(big.Int).Mul(sr, sr)
+			for _, dl := range []int64{-4, -1, 0, 1, 4} {
+				c := new(big.Int).Add(sq, big.NewInt(dl))
+				if c.BitLen() > 64 && bi < 9 {
+					continue
+				}
+				for _, ex := range []int32{0, -2, -16, -17, 4} {
+					x := FinBig(c, ex, false)
+					e.State()
+					for _, p := range []uint32{9, 10, 16, 22, 34} {
+						cc := MkCtx(p, -6143, 6144, Modes8[int(p+uint32(k))%8], 0)
+						cls, triv, msg := c11Sqrt(x, cc)
+						report("Sqrt", x, cc, cls+"/near-square-64bit", triv, msg)
+					}
 				}
 			}
 		}
